@@ -51,6 +51,7 @@ FriValidate(f, logCosets, nvf) ==
   ELSE IF f.logLast > 15 THEN <<"reject", 0>>
   ELSE IF Len(f.steps) = 0 THEN <<"reject", 0>>
   ELSE IF f.steps[1] # 0 THEN <<"reject", 0>>
+  ELSE IF GuardsFixed /\ (Len(f.steps) # f.nLayers \/ Len(f.inner) # f.nLayers - 1) THEN <<"reject", 0>>   \* fix aa508b5
   ELSE
     LET RECURSIVE Loop(_, _, _)
         Loop(i, logIn, sum) ==
@@ -114,6 +115,8 @@ Devs ==
   \cup { <<"fri.inner2.nvf", v>> : v \in Around({5}) }
   \cup { <<"fri.shiftAll", v>> : v \in {1, 2, 3} }      \* consistent re-declaration: logInput, inner heights, logLast all +v
   \cup { <<"fri.dropStep", 0>>, <<"fri.dropInner", 0>> }
+  \cup { <<"fri.extraInner", 0>>, <<"fri.extraStep", 0>> }   \* surplus trailing entries in the per-layer vectors
+  \cup { <<"fri.dropInnerRebalanced", 0>> }              \* last inner layer missing, its step moved into the last-layer bound
   \cup { <<"fri.addLayer", 0>> }                        \* one more layer, re-telescoped: still a valid configuration
   \cup { <<"cosetsWrap", v>> : v \in {P - 2, P - 1, 0} } \* blow-up exponent taken modulo the field, everything re-declared consistently
   \cup { <<"traceShift", v>> : v \in {1, 2} }            \* trace exponent and every height +v, FRI description unchanged apart from heights
@@ -141,6 +144,10 @@ Apply(c, d) ==
     [] d[1] = "fri.inner2.nvf" -> [c EXCEPT !.fri.inner[2].vec.nvf = d[2]]
     [] d[1] = "fri.shiftAll" -> [c EXCEPT !.fri.logInput = @ + d[2], !.fri.logLast = @ + d[2],
                                           !.fri.inner[1].vec.height = @ + d[2], !.fri.inner[2].vec.height = @ + d[2]]
+    [] d[1] = "fri.extraInner" -> [c EXCEPT !.fri.inner = Append(@, [ncols |-> 2, vec |-> Vec(3, 5)])]
+    [] d[1] = "fri.extraStep" -> [c EXCEPT !.fri.steps = Append(@, 1)]
+    [] d[1] = "fri.dropInnerRebalanced" -> [c EXCEPT !.fri.inner = SubSeq(@, 1, Len(@) - 1),
+                                                     !.fri.logLast = @ + c.fri.steps[Len(c.fri.steps)]]
     [] d[1] = "fri.addLayer" -> [c EXCEPT !.fri.nLayers = 4, !.fri.steps = <<0, 4, 3, 1>>, !.fri.logLast = 1,
                                           !.fri.inner = Append(@, [ncols |-> 2, vec |-> Vec(3, 5)])]
     [] d[1] = "cosetsWrap" -> LET e == FAdd(c.logTrace, d[2]) IN
